@@ -87,6 +87,7 @@ func (w *Walker) inlineLit(call ast.Node, lit *ast.FuncLit, owner *FuncInfo, arg
 	info := owner.Pkg.TypesInfo
 	sub := &Walker{A: w.A, Fn: owner, info: info, record: w.record, depth: w.depth + 1, inl: &inlineCtx{}, budget: 40000,
 		trackFields: w.trackFields, inlineHelpers: w.inlineHelpers, rec: w.rec, siteOwner: w.siteOwner, loops: nil}
+	sub.cnt = w.cnt
 	if sub.siteOwner == nil && w.rec == nil && owner != w.Fn {
 		sub.siteOwner = w.sfn()
 	}
